@@ -340,6 +340,9 @@ class SMUserList(UserList, ABC):
             raise ValueError("can't insert different type of object")
         if len(value) != 1:
             raise ValueError("can't insert a multivalued element - must have len() == 1")
+        if isinstance(i, slice):
+            # list slice assignment would iterate the ndarray and store its rows (or scalars) as elements
+            raise ValueError("can't assign to a slice - assign to one element at a time")
         self.data[i] = value.A
 
     # collections.UserList implements + and * as list concatenation and repetition.  For these classes
